@@ -1,11 +1,18 @@
 PROP = {
     "id": "C35",
     "theorem_modules": ["Verif.Properties.C35"],
-    "min_theorems": 9,
+    "min_theorems": 16,
     "required_theorems": [
         "Verif.Properties.C35.byte_limits_ok",
         "Verif.Properties.C35.leb_u32_roundtrip",
         "Verif.Properties.C35.leb_u64_roundtrip",
+        "Verif.Properties.C35.leb_i32_roundtrip",
+        "Verif.Properties.C35.leb_i64_roundtrip",
+        "Verif.Properties.C35.leb_canonical_length",
+        "Verif.Properties.C35.leb_canonical_length_signed",
+        "Verif.Properties.C35.leb_fixed_length",
+        "Verif.Properties.C35.appendUint32_eq_spec",
+        "Verif.Properties.C35.appendInt64_eq_spec",
         "Verif.Properties.C35.instr_table_ok",
         "Verif.Properties.C35.instr_table_consistent",
         "Verif.Properties.C35.instr_roundtrip",
@@ -25,15 +32,26 @@ PROP = {
     "exhaustive": False,
     "technique": "Lean 4 proof over a line-by-line port of bbq/leb128 and a generic instruction codec interpreted over the "
                  "table regenerated from instructions.yml + correspondence streams; compile determinism by re-execution",
-    "level_text": "Lean theorems: LEB128 round trips for every uint32/uint64/int32/int64, canonical length, fixed-length "
-                  "variant (code-shaped model of bbq/leb128, byte limits regenerated from the source on every run). "
-                  "Tie: stream `leb` (all integers at byte-length boundaries, random integers, all byte strings of "
-                  "length <= 2, random over-long / truncated strings: Go Append*/Read* = model, and the round trip "
-                  "itself is the oracle).",
-    "level_note": "Compilation determinism is correspondence-checked only (partial): no theorem covers the compiler. "
-                  "Trusted: Lean kernel; hand-written ports validated by the streams; harness and drivers.",
+    "level_text": "Lean theorems, for all values: LEB128 round trips read(append v ++ rest) = (v, len) for every "
+                  "uint32/uint64/int32/int64, encoders = canonical spec encodings, fewest-bytes, fixed-length variant "
+                  "(code-shaped model of bbq/leb128 with Go wrap-around; byte limits regenerated from the source); "
+                  "instruction codec: decode(encode i) = (i, len) and decodeAll(encodeAll is) = is for every "
+                  "instruction of the table regenerated from instructions.yml + the emit*/decode* calls of "
+                  "instructions.go + the running opcode constants, for all operands in range and code < 2^16 bytes. "
+                  "Tie: streams `leb` (all integers at byte-length boundaries, random, all byte strings <= 2) and "
+                  "`instr` (every opcode with random operands built by reflection over the real structs, instruction "
+                  "sequences of compiled generated programs, arbitrary bytes): Go bytes = model bytes, Go decode = "
+                  "model decode, and the round trip itself is the oracle. Compilation determinism: correspondence "
+                  "only (partial) - stream `compiledet` recompiles generated programs 5x in-process and once in a "
+                  "fresh process and compares printed program, function/constant/type/global tables and byte code.",
+    "level_note": "Compilation determinism is CC only (partial): no theorem covers the compiler; the generated programs "
+                  "are a small typed fragment (interfaces with default functions and conditions, structs, resources, "
+                  "enums, closures, loops, containers, string templates). Code >= 2^16 bytes (uint16 instruction "
+                  "pointer wraps) is outside the instruction theorems. Trusted: Lean kernel; hand-written ports of "
+                  "leb128.go and of the emit*/decode* helpers validated by the streams; vtool extractors; harness and drivers.",
     "assumptions": ["Go uint32/uint64/int32/int64 arithmetic is modelled by Nat/Int with explicit wrap-around"],
     "trusted_base": ["hand-written port Verif.Model.Leb128 validated by stream leb",
-                     "vtool gen-lebfacts (go/ast constant extraction)",
-                     "Go harness cmd/vharness/stream_leb.go", "driver Drv/Leb.lean"],
+                     "hand-written port Verif.Model.Instr (emit*/decode* helpers) validated by stream instr",
+                     "vtool gen-lebfacts, gen-instr (go/ast + yaml extraction)",
+                     "Go harness cmd/vharness/stream_{leb,instr,compiledet}.go, c35_gen.go", "drivers Drv/{Leb,Instr,Compiledet}.lean"],
 }
